@@ -101,6 +101,13 @@ impl Matcher for SizeMatcher {
     }
 }
 
+/// Verification hook: the unit conversion behind `-size` for a unit suffix.
+#[cfg(feature = "verif-hooks")]
+pub fn verif_unit_size(suffix: &str, byte_size: u64) -> Option<u64> {
+    let unit: Unit = suffix.parse().ok()?;
+    Some(byte_size_to_unit_size(unit, byte_size))
+}
+
 #[cfg(test)]
 mod tests {
     use super::*;
